@@ -15,7 +15,7 @@ from vmon import monitors as M
 from vmon.rxgen import sample
 
 LEVEL = "exploration"
-RULE = ("corpus = known tie texts (two patterns matching the same characters) + validated members of "
+RULE = ("corpus = EVERY standard-template reporter string and journal key of the database in minimal form + known tie texts (two patterns matching the same characters) + validated members of "
         "randomly chosen extractor patterns + dense hostile documents + marked-up documents; every (text, "
         "options) is evaluated (1) in fresh interpreters under different PYTHONHASHSEED values, (2) twice in "
         "one process in different call orders with unrelated texts in between, with a deep snapshot of the "
@@ -27,10 +27,10 @@ RULE = ("corpus = known tie texts (two patterns matching the same characters) + 
 ASSUMPTIONS = ["hash(int) of the sha256-derived value hashes does not depend on PYTHONHASHSEED (CPython)",
                "thread schedules are those the GIL and injected sleep(0) produced; the evidence reports "
                "how many forced switches at how many distinct source lines were observed"]
-FLOORS = {"quick": {"hash_seeds": 6, "texts_per_seed": 300, "tie_texts": 20, "cross_seed_comparisons": 2000,
+FLOORS = {"quick": {"hash_seeds": 6, "texts_per_seed": 5000, "tie_texts": 20, "cross_seed_comparisons": 30000,
                     "repeat_comparisons": 1000, "snapshot_rechecks": 500, "threaded_calls": 1000,
                     "forced_switches": 1000, "distinct_switch_points": 100},
-          "thorough": {"hash_seeds": 32, "texts_per_seed": 2000, "cross_seed_comparisons": 60000,
+          "thorough": {"hash_seeds": 32, "texts_per_seed": 5000, "cross_seed_comparisons": 200000,
                        "threaded_calls": 20000, "forced_switches": 50000}}
 SEEDS = {"quick": [0, 1, 2, 3, 4, 5, 6, 7], "thorough": list(range(40))}
 NCORP = {"quick": 120, "thorough": 700}
@@ -63,6 +63,12 @@ def corpus(seed, n):
         texts.append((gen.markup_doc(rng), rng.choice(gen.MARKUP_STEPS)))
     for s in gen.test_corpus()[::7]:
         texts.append((s, None))
+    # database-exhaustive: every standard-template reporter string and journal key in minimal form
+    # (hash-seed dependence may hide in the few strings matched by two templates at once)
+    for k, r in enumerate(gen.DB.std_all + gen.DB.journals):
+        texts.append((f"{1 + k % 9} {r} {1 + k % 7}", None))
+        if k % 4 == 0:
+            texts.append((f"Foo, {1 + k % 9} {r} at {1 + k % 7}.", None))
     return texts
 
 
@@ -124,6 +130,7 @@ def run_repeat(spec, rec):
     toks = {"ac": tok.get("ac"), "hs": tok.get("hs")}
     rng = random.Random(f"rep-{spec['seed']}-{spec['i']}")
     texts = corpus(spec["seed"], spec["n"])
+    texts = texts[:len(TIES) + 2 * spec["n"] + spec["n"] // 4 + 60] + texts[-400 - 300 * spec["i"]:][:300]
     first = {}
     held = []
     order = list(range(len(texts)))
